@@ -571,9 +571,13 @@ func (u *Unit) execRangeChan(st *ast.RangeStmt, env *Env, label string, x Value,
 	ex := env.clone()
 	u.exitSummary(ex, blk, cut, lname, st.Pos())
 	delete(ex.alias, "_i")
+	// _received: how many values this loop has taken from the channel (usable after the loop and in the function's
+	// postcondition: a body that returns early has taken one more than it finished)
+	ex.alias["_received"] = k
 	res = append(res, Outcome{env: ex, kind: oNext})
 	be := env
 	delete(be.alias, "_i")
+	be.alias["_received"] = add(k, IntLit(1))
 	v := u.define(be, "recv", Select(rx, k))
 	if v.Sort == SFn && u.Block != nil && u.Block.Opts["recv-nonnil"] != "" {
 		be.assume(Not(Same(v, Term{"nil_Fn", SFn})))
@@ -619,6 +623,17 @@ func (u *Unit) chanRecv(env *Env, ch ast.Expr, pos token.Pos) (Value, Term) {
 	u.typeInvariant(env, v, ct.Elem())
 	u.knownRefsOf(env, v)
 	okT := u.D.Fresh("rcvok", SBool)
+	if u.Block != nil && u.Block.Opts["recv-nonnil"] != "" {
+		// "opt recv-nonnil": the channel is open while this unit receives and nobody sends nil on it (stated with the contract)
+		switch v.Sort {
+		case SRef:
+			env.assume(Not(Same(v, Term{"nil_Ref", SRef})))
+		case SFn:
+			env.assume(Not(Same(v, Term{"nil_Fn", SFn})))
+		}
+		env.assume(okT)
+		u.assumeUsed("values received on the unit's channel are non-nil and the channel is open while the unit runs (opt recv-nonnil)")
+	}
 	res := v
 	if v.Sort != SVal {
 		res = u.box(Value{v, ct.Elem()}).Term
